@@ -612,7 +612,7 @@ Fixpoint enum {A} (i : nat) (l : list A) : list (nat * A) :=
   end.
 
 (* ------------------------------------------------------------------ the concrete world of the harness *)
-(** The task family of harness/props/c21.py.  Parameters: name and optional default. *)
+(** The task family of harness/props/c21.py.  Each entry: argument name and optional default. *)
 Definition sig_of (t : nat) : list (string * option val) :=
   let tag := ("tag"%string, Some (VInt 0)) in
   match t with
